@@ -743,6 +743,17 @@ func (s *Server) UpdatedProtectionStatus() (enabled bool, disabledUntil *time.Ti
 	return true, nil
 }
 
+// configModified calls the callback that saves the configuration.  It must not
+// be called with s.serverLock held, since the callback reads the server's
+// settings under that lock.
+func (s *Server) configModified() {
+	s.serverLock.RLock()
+	modified := s.conf.ConfigModified
+	s.serverLock.RUnlock()
+
+	modified()
+}
+
 // enableProtectionAfterPause sets the protection configuration to enabled
 // values.  It is intended to be used as a goroutine.
 func (s *Server) enableProtectionAfterPause() {
@@ -750,7 +761,7 @@ func (s *Server) enableProtectionAfterPause() {
 
 	defer s.protectionUpdateInProgress.Store(false)
 
-	defer s.conf.ConfigModified()
+	defer s.configModified()
 
 	s.serverLock.Lock()
 	defer s.serverLock.Unlock()
